@@ -346,23 +346,51 @@ func runSequential(c Case) (r seqResult) {
 	}
 	var expected []expectQC
 	keyChanging, deletes := 0, 0
+	inited := false
 	for i, op := range c.Ops {
 		switch op.K {
-		case "create", "update", "delete":
+		case "rebuild":
+			// rebuilding the indexes of a store whose index queue is flushed changes nothing
+			m.qs.Flush()
+			if err := m.qs.RebuildIndexes(); err != nil {
+				r.c13 = fmt.Sprintf("op %d: RebuildIndexes failed: %v", i, err)
+				return
+			}
+		case "create", "update", "delete", "init":
 			if op.K == "delete" {
 				op.Then = ""
 			}
 			_, exists0 := model[op.ID]
-			if (op.K == "create") == exists0 {
-				op.Then = "" // the first mutation fails: nothing follows
-			}
-			err := m.mutate(op)
-			if (err == nil) != ((op.K == "create") != exists0) {
-				r.c13 = fmt.Sprintf("op %d %v: error %v, model exists=%v (store contract, see C11)", i, op, err, exists0)
-				return
-			}
-			if err != nil {
-				continue
+			if op.K == "init" {
+				// Store.Init offering this id as a seed: creates it the first time Init runs,
+				// unless the id exists already; otherwise nothing happens
+				op.Then = ""
+				err := m.st.Init(func(add func(id string, v interface{})) error {
+					add(op.ID, Rec{A: op.A, B: op.B})
+					return nil
+				})
+				if err != nil {
+					r.c13 = fmt.Sprintf("op %d %v: Init failed: %v", i, op, err)
+					return
+				}
+				if inited || exists0 {
+					inited = true
+					continue
+				}
+				inited = true
+				op.K = "create"
+			} else {
+				if (op.K == "create") == exists0 {
+					op.Then = "" // the first mutation fails: nothing follows
+				}
+				err := m.mutate(op)
+				if (err == nil) != ((op.K == "create") != exists0) {
+					r.c13 = fmt.Sprintf("op %d %v: error %v, model exists=%v (store contract, see C11)", i, op, err, exists0)
+					return
+				}
+				if err != nil {
+					continue
+				}
 			}
 			for _, op := range split(op) {
 				prev, exists := model[op.ID]
@@ -489,7 +517,7 @@ func runSequential(c Case) (r seqResult) {
 	return
 }
 
-var idAlpha = []string{"1", "2", "3", "a", "ab", "b"}
+var idAlpha = []string{"1", "2", "px", "a", "ab", "b"} // "px" starts with characters of the prefix "pfx."
 
 func describeModel(m map[string]Rec) string {
 	var ks []string
